@@ -40,12 +40,12 @@ theorem reg_branch {b bj : DHint} (hb : b.Reg D) (hm : bj ∈ branches b) : bj.R
     exact ⟨regAll_mem D hb.2.1 _ hm, by simpa using (List.all_eq_true.mp hb.2.2.1) _ hm⟩
   | _ => simp only [branches, List.mem_singleton] at hm; subst hm; exact ⟨hb, rfl⟩
 
-theorem ignAny_mem : ∀ {hs : List DHint} {h : DHint}, h ∈ hs → ign D h = true → ignAny D hs = true
+theorem ignSAny_mem : ∀ {hs : List DHint} {h : DHint}, h ∈ hs → ignS D h = true → ignSAny D hs = true
   | a :: as, h, hm, hi => by
-    simp only [ignAny, Bool.or_eq_true]
+    simp only [ignSAny, Bool.or_eq_true]
     rcases List.mem_cons.mp hm with e | e
     · subst e; exact Or.inl hi
-    · exact Or.inr (ignAny_mem e hi)
+    · exact Or.inr (ignSAny_mem e hi)
 
 theorem ignAll_mem : ∀ {hs : List DHint}, ignAll D hs = true → ∀ h ∈ hs, ign D h = true
   | [], _, h, hm => by cases hm
@@ -55,24 +55,51 @@ theorem ignAll_mem : ∀ {hs : List DHint}, ignAll D hs = true → ∀ h ∈ hs,
     · subst e; exact hi.1
     · exact ignAll_mem hi.2 h e
 
-theorem ignAny_exists : ∀ {hs : List DHint}, ignAny D hs = true → ∃ h ∈ hs, ign D h = true
-  | [], hi => by simp [ignAny] at hi
+theorem ignSAny_exists : ∀ {hs : List DHint}, ignSAny D hs = true → ∃ h ∈ hs, ignS D h = true
+  | [], hi => by simp [ignSAny] at hi
   | a :: as, hi => by
-    simp only [ignAny, Bool.or_eq_true] at hi
+    simp only [ignSAny, Bool.or_eq_true] at hi
     rcases hi with hi | hi
     · exact ⟨a, by simp, hi⟩
-    · obtain ⟨h, hm, hh⟩ := ignAny_exists hi
+    · obtain ⟨h, hm, hh⟩ := ignSAny_exists hi
       exact ⟨h, by simp [hm], hh⟩
+
+/-- for every wrapper but a TypeVar's, `is_ignorable` is the checker's notion -/
+theorem ign_atomic {h : DHint} (hu : h.isUnionLike = false) : ign D h = ignS D h := by
+  cases h <;> simp_all [ign, isUnionLike]
+
+/-- on regular hints the two notions of ignorability coincide (a regular TypeVar's constraints are all or none ignorable) -/
+theorem reg_ign_eq {h : DHint} (hr : h.Reg D) : ign D h = ignS D h := by
+  cases h with
+  | typevar hs =>
+    simp only [DHint.Reg] at hr
+    obtain ⟨hne, _, hflat, htv⟩ := hr
+    simp only [ign, ignS]
+    cases hS : ignSAny D hs with
+    | true => exact htv hS
+    | false =>
+      cases hA : ignAll D hs with
+      | false => rfl
+      | true =>
+        obtain ⟨a, ha⟩ := List.exists_mem_of_ne_nil hs hne
+        have h1 := ignAll_mem D hA a ha
+        rw [ign_atomic D (by simpa using (List.all_eq_true.mp hflat) a ha)] at h1
+        rw [ignSAny_mem D ha h1] at hS; cases hS
+  | _ => simp [ign]
 
 /-- an ignorable branch makes a regular hint ignorable -/
 theorem ign_of_branch {b bj : DHint} (hb : b.Reg D) (hm : bj ∈ branches b) (hi : ign D bj = true) : ign D b = true := by
+  have hbj := reg_branch D hb hm
+  rw [ign_atomic D hbj.2] at hi
   cases b with
-  | union hs => simp only [branches] at hm; simp only [ign]; exact ignAny_mem D hm hi
+  | union hs => simp only [branches] at hm; simp only [ign, ignS]; exact ignSAny_mem D hm hi
   | typevar hs =>
     simp only [branches] at hm; simp only [ign]
     simp only [DHint.Reg] at hb
-    exact hb.2.2.2 (ignAny_mem D hm hi)
-  | _ => simp only [branches, List.mem_singleton] at hm; subst hm; exact hi
+    exact hb.2.2.2 (ignSAny_mem D hm hi)
+  | _ =>
+    simp only [branches, List.mem_singleton] at hm; subst hm
+    rw [ign_atomic D hbj.2]; exact hi
 
 /-- the class is `object` or fabricated for a NewType of `object` -/
 def objish (c : Nat) : Prop := c = cObject ∨ D.ntParent c = some cObject
@@ -99,7 +126,7 @@ theorem ign_of_objish_origin (hD : D.Wf) {bj : DHint} (hr : bj.Reg D) (hu : bj.i
   cases bj with
   | cls c =>
     simp only [origin] at ho
-    simp only [ign, Bool.or_eq_true, beq_iff_eq]
+    simp only [ign, ignS, Bool.or_eq_true, beq_iff_eq]
     exact ho
   | cont k o h =>
     simp only [DHint.Reg] at hr
@@ -141,17 +168,18 @@ theorem subBody_ign (hD : D.Wf) (le eq : DHint → DHint → R) (hle : IgnRel D 
     · exact hle ai h' hra hr' this hia
   cases h with
   | any => simp [DHint.Reg] at hr
-  | literal _ => simp [ign] at hi
-  | tupleFixed _ => simp [ign] at hi
-  | tupleVar _ => simp [ign] at hi
-  | cont _ _ _ => simp [ign] at hi
-  | mapping _ _ _ => simp [ign] at hi
-  | callable _ _ _ _ => simp [ign] at hi
+  | literal _ => simp [ign, ignS] at hi
+  | tupleFixed _ => simp [ign, ignS] at hi
+  | tupleVar _ => simp [ign, ignS] at hi
+  | cont _ _ _ => simp [ign, ignS] at hi
+  | mapping _ _ _ => simp [ign, ignS] at hi
+  | callable _ _ _ _ => simp [ign, ignS] at hi
   | union as =>
     simp only [DHint.Reg] at hr
-    simp only [ign] at hi
-    obtain ⟨ai, hm, hia⟩ := ignAny_exists D hi
-    exact unionCase as ⟨ai, hm, regAll_mem D hr.2.1 ai hm, hia⟩ (by simpa [subBody] using hl)
+    simp only [ign, ignS] at hi
+    obtain ⟨ai, hm, hia⟩ := ignSAny_exists D hi
+    have hat : ai.isUnionLike = false := by simpa using (List.all_eq_true.mp hr.2.2) ai hm
+    exact unionCase as ⟨ai, hm, regAll_mem D hr.2.1 ai hm, by rw [ign_atomic D hat]; exact hia⟩ (by simpa [subBody] using hl)
   | typevar as =>
     simp only [DHint.Reg] at hr
     simp only [ign] at hi
@@ -162,11 +190,11 @@ theorem subBody_ign (hD : D.Wf) (le eq : DHint → DHint → R) (hle : IgnRel D 
     obtain ⟨bj, hmb, hf⟩ := anyE_true hl
     have hrb := reg_branch D hr' hmb
     simp only [reg_not_any D hrb.1, Bool.false_eq_true, ↓reduceIte, brLe, Except.ok.injEq, Bool.and_eq_true] at hf
-    have hc : objish D c := by simpa [ign, objish] using hi
+    have hc : objish D c := by simpa [ign, ignS, objish] using hi
     exact ign_of_branch D hr' hmb (ign_of_objish_origin D hD hrb.1 hrb.2 hf.1 (objish_up D hD hc hf.2))
   | annotated h0 md =>
     simp only [DHint.Reg] at hr
-    simp only [ign] at hi
+    have hi0 : ign D h0 = true := by rw [reg_ign_eq D hr]; simpa [ign, ignS] using hi
     simp only [subBody, baseSub] at hl
     obtain ⟨bj, hmb, hf⟩ := anyE_true hl
     have hrb := reg_branch D hr' hmb
@@ -182,8 +210,10 @@ theorem subBody_ign (hD : D.Wf) (le eq : DHint → DHint → R) (hle : IgnRel D 
           | true => rfl
           | false => rw [hl'] at hf; cases hf
       simp only [DHint.Reg] at hrb
-      simpa [ign] using hle h0 h1 hr hrb.1 this hi
-    | _ => simp only [brLe] at hf; exact hle h0 _ hr hrb.1 hf hi
+      have h1i := hle h0 h1 hr hrb.1 this hi0
+      rw [reg_ign_eq D hrb.1] at h1i
+      simpa [ign, ignS] using h1i
+    | _ => simp only [brLe] at hf; exact hle h0 _ hr hrb.1 hf hi0
 
 theorem leF_ign (hD : D.Wf) : ∀ n, IgnRel D (leF D n)
   | 0 => by intro h h' _ _ hl; simp [leF] at hl
@@ -318,7 +348,7 @@ theorem brLe_under (hD : D.Wf) (le eq : DHint → DHint → R) (hle : UnderRel D
     cases bj with
     | literal ms' => simp only [brLe, Except.ok.injEq] at h; exact litSubset_under D h hu
     | _ =>
-      simp only [brLe, guardE] at h
+      simp only [brLe] at h
       have := baseCase _ (Or.inr rfl) h
       simp only [origin] at this
       simp only [under, List.all_eq_true]
@@ -338,10 +368,10 @@ theorem brLe_under (hD : D.Wf) (le eq : DHint → DHint → R) (hle : UnderRel D
           | false => rw [hl] at h; cases h
       simpa [under] using hle h' hb' o ha hb this (by simpa [under] using hu)
     | _ =>
-      simp only [brLe, guardE] at h
+      simp only [brLe] at h
       simpa [under] using hle h' _ o ha hb h hu
   | tupleFixed as =>
-    simp only [brLe, guardE] at h
+    simp only [brLe] at h
     split at h
     · rename_i hig
       simp only [Except.ok.injEq] at h
